@@ -119,6 +119,25 @@ def check(an, rep, tier):
             t = node.targets[0]
             zname = t.elts[0].id if isinstance(t, ast.Tuple) else \
                 getattr(t, 'id', None)
+    # --- P-unique: with unique=True every returned row set is a row subset of
+    # an np.unique(.., axis=0) result (distinct rows); rows stacked from
+    # several draws without a final de-duplication may repeat
+    for r in runs:
+        if r.qualname != 'sample.sample_square' or \
+                r.variant.get('unique') == ('lit', False):
+            continue
+        for j, rv in enumerate(r.returns):
+            if rv.k != 'arr':
+                continue            # recursion placeholder
+            st_ = 'ok' if rv.note == 'distinct' else (
+                'violation' if rv.note == 'stacked' else 'unknown')
+            rep.add('P-unique', 'sample.sample_square', 'return path %d of %s '
+                    'yields distinct rows' % (j, r.tag()), st_,
+                    '' if st_ == 'ok' else (
+                        'the returned rows are stacked from several draws '
+                        'and not de-duplicated afterwards: a row can occur '
+                        'twice although unique=True' if st_ == 'violation'
+                        else 'row distinctness not tracked (%s)' % rv.note))
     # --- U-square: the first marginal squares the pivot core, which carries
     # the whole norm of the tensor; it must have gone through the power-of-two
     # normalisation (or a division by its own norm) before it is squared
@@ -192,5 +211,6 @@ def check(an, rep, tier):
     rep.floor('S-einsum', 2, 'marginal / conditional contractions')
     rep.floor('R-draw-local', 6, 'draw sites in sample.py')
     rep.floor('O-pivot', 3, 'pivot rules')
+    rep.floor('P-unique', 1, 'distinct rows with unique=True')
     rep.floor('U-square', 1, 'normalised pivot core before squaring')
     rep.floor('P-lhs', 1, 'LHS remainder draw')
